@@ -370,7 +370,9 @@ func (e *Engine) fmtArg(x *Exec, verb string, a Term) Term {
 	}
 	name := "fmt_" + sanitize(strings.TrimPrefix(verb, "%"))
 	_ = last
-	x.declareOnce(fmt.Sprintf("(declare-fun %s (Any) Str)", name))
+	if name != "fmt_v" { // fmt_v is a static symbol (it has an axiom)
+		x.declareOnce(fmt.Sprintf("(declare-fun %s (Any) Str)", name))
+	}
 	return mk(SStr, name, a)
 }
 
